@@ -5,12 +5,15 @@ combinations of rewrites are enumerable.
 Rewrites (variant in brackets):
   R1 [1]            min f  ->  max -f   (value = -get());  minmax -> maxmin, minsup -> maxinf
   R2 [v|c|vc]       reverse the declaration order of variables / of constraints / both
-  R3 [neg|flip]     a <= b  ->  -b <= -a   |   b >= a          (rows, cone constraints, robust constraints, set rows)
+  R3 [neg|flip|sub] a <= b  ->  -b <= -a   |   b >= a   |   a - b <= 0   (rows, cone and norm constraints, robust
+                    constraints, rows and norm constraints of uncertainty sets / supports)
   R4 [1]            equality -> pair of inequalities (deterministic rows, rows of the uncertainty set)
   R5 [lin|ninf]     bounds as Bounds objects -> linear constraints 1*x <= u | infinity-norm norm(x-c,'inf') <= r
                     (variable boxes and the box of the uncertainty set / supports)
   R6 [loop|elem]    array expressions -> one constraint per row | element-wise python sums
-  R7 [2|0.5]        positive rescaling of every inequality / equality
+  R7 [2|0.4|2.5]    positive rescaling of every inequality / equality, including the infinity-norm / linear writing of a
+                    box (k*norm(e,'inf') <= k*r, -k*r <= -k*norm(e,'inf'), norm(e,'inf')*k - k*r <= 0); Bounds objects cannot
+                    be rescaled and stay as they are
   R8 [args|gen|tup] a collection given as one list -> several arguments | a generator | a tuple
                     (st, forall, minmax/maxmin, suppset)
   R9 [1]            ro model -> single-scenario dro model (deterministic bases: dro front end)
@@ -18,11 +21,11 @@ Rewrites (variant in brackets):
 import numpy as np
 from . import c09c15_common as C
 
-VARIANTS = {'R1': ['1'], 'R2': ['v', 'c', 'vc'], 'R3': ['neg', 'flip'], 'R4': ['1'], 'R5': ['lin', 'ninf'],
-            'R6': ['loop', 'elem'], 'R7': ['2', '0.5'], 'R8': ['args', 'gen', 'tup'], 'R9': ['1']}
-BASES = ['lp', 'socp', 'ro_box', 'ro_norm', 'ro_ball', 'ro_boxeq', 'dro']
+VARIANTS = {'R1': ['1'], 'R2': ['v', 'c', 'vc'], 'R3': ['neg', 'flip', 'sub'], 'R4': ['1'], 'R5': ['lin', 'ninf'],
+            'R6': ['loop', 'elem'], 'R7': ['2', '0.4', '2.5'], 'R8': ['args', 'gen', 'tup'], 'R9': ['1']}
+BASES = ['lp', 'socp', 'ro_box', 'ro_norm', 'ro_ball', 'ro_boxeq', 'ro_zbox', 'ro_zmir', 'dro']
 HOWS = {'lp': ['def', 'eco'], 'socp': ['eco', 'grb'], 'ro_box': ['def', 'eco'], 'ro_norm': ['def', 'eco'],
-        'ro_ball': ['eco'], 'ro_boxeq': ['def'], 'dro': ['def', 'eco']}
+        'ro_ball': ['eco'], 'ro_boxeq': ['def'], 'ro_zbox': ['def', 'eco'], 'ro_zmir': ['def'], 'dro': ['def', 'eco']}
 NOT_APPLICABLE = {('dro', 'R9')}
 
 
@@ -71,6 +74,8 @@ class Builder(object):
             return -b <= -a
         if v == 'flip':
             return b >= a
+        if v == 'sub':
+            return a - b <= 0
         return a <= b
 
     def geq(self, a, b):
@@ -91,6 +96,8 @@ class Builder(object):
             return -b <= -a
         if v == 'flip':
             return b >= a
+        if v == 'sub':
+            return a - b <= 0
         return a <= b
 
     def box(self, x, lo, hi):
@@ -99,14 +106,14 @@ class Builder(object):
         lo = np.asarray(lo, dtype=float)
         hi = np.asarray(hi, dtype=float)
         self.nops += 2
-        if v == 'lin':
-            return [1.0 * x <= hi, 1.0 * x >= lo]
-        if v == 'ninf':
+        if v == 'lin':           # linear rows, themselves subject to R3 / R7
+            return [self.leq(1.0 * x, hi), self.leq(lo, 1.0 * x)]
+        if v == 'ninf':          # the norm constraint itself is rescaled / re-oriented by R7 / R3
             c = 0.5 * (lo + hi)
             r = 0.5 * (hi - lo)
             if np.allclose(r, r.flat[0]):
-                return [self.rso.norm(x - c, 'inf') <= float(r.flat[0])]
-            return [self.rso.norm((x - c) * (1.0 / r), 'inf') <= 1.0]
+                return [self.leq(self.rso.norm(x - c, 'inf'), float(r.flat[0]))]
+            return [self.leq(self.rso.norm((x - c) * (1.0 / r), 'inf'), 1.0)]
         return [x <= hi, x >= lo]
 
     def upper(self, x, hi):
@@ -115,9 +122,9 @@ class Builder(object):
         hi = np.asarray(hi, dtype=float)
         self.nops += 1
         if v == 'lin':
-            return [1.0 * x <= hi]
+            return [self.leq(1.0 * x, hi)]
         if v == 'ninf':
-            return [1.0 * x + 0.0 <= hi]
+            return [self.leq(1.0 * x + 0.0, hi)]
         return [x <= hi]
 
     def rows_leq(self, A, x, b):
@@ -208,8 +215,9 @@ class Builder(object):
 def build_det(b, socp):
     p = b.p
     rso = b.rso
-    v = b.declare([('x', 'dvar', 3), ('w', 'dvar', 2)])
-    x, w = v['x'], v['w']
+    v = b.declare([('x', 'dvar', 3), ('w', 'dvar', 2), ('v', 'dvar', 2)])
+    x, w, vv = v['x'], v['w'], v['v']
+    b.collect(b.box(vv, np.array([-0.5, -0.5]), np.array([1.5, 1.5])))     # upper side active on v0, lower on v1
     b.collect(b.box(x, np.zeros(3), p['u']))
     b.collect(b.box(w, -np.ones(2), np.ones(2)))
     b.collect(b.upper(x, p['u'] + 1.0))                          # a second, looser bound on the same variables
@@ -224,9 +232,9 @@ def build_det(b, socp):
                 b.collect([b.leq(rso.square(w[i] - 0.5), x[i] + 0.25)])
         else:
             b.collect([b.leq(rso.square(w - 0.5), x[0:2] + 0.25)])
-    obj = p['cl'] @ x + 0.5 * w[0] + 0.25 * w[1]
+    obj = p['cl'] @ x + 0.5 * w[0] + 0.25 * w[1] - 0.25 * vv[0] + 0.375 * vv[1]
     if b.has('R6') == 'elem':
-        obj = sum(float(p['cl'][j]) * x[j] for j in range(3)) + 0.5 * w[0] + 0.25 * w[1]
+        obj = sum(float(p['cl'][j]) * x[j] for j in range(3)) + 0.5 * w[0] + 0.25 * w[1] - 0.25 * vv[0] + 0.375 * vv[1]
     b.finish(obj)
 
 
@@ -285,6 +293,47 @@ def build_ro(b, kind):
         b.finish(obj, zs)
 
 
+ZB = {'zbox': (np.array([-1.0, 0.0, -0.75]), np.array([0.0, 1.5, 1.25])),      # zero upper | zero lower | free sign
+      'zmir': (np.array([0.0, -1.25, -0.5]), np.array([1.0, 0.0, 0.0]))}       # zero lower | zero upper | zero upper
+
+
+def zbset(b, z, zu, kind):
+    lo, hi = ZB[kind]
+    cons = list(b.box(z, lo, hi))
+    cons.extend(b.upper(zu, np.array([0.0])))        # one-sided: zero upper bound, no lower bound
+    return cons
+
+
+def build_roz(b, kind):
+    """Robust model over a box with exactly-zero bounds; the objective (c - z)@x puts the worst case on the LOWER
+    side of every component, the robust row on the UPPER side, so zero lower and zero upper bounds are both active."""
+    p = b.p
+    v = b.declare([('x', 'dvar', 3), ('z', 'rvar', 3), ('zu', 'rvar', 1)])
+    x, z, zu = v['x'], v['z'], v['zu']
+    fset = None
+    zs = zbset(b, z, zu, kind)
+    if b.dro_fe:
+        fset = b.m.ambiguity()
+        fset.suppset(*b.coll(zs))
+    b.collect(b.box(x, np.zeros(3), np.array([2.0, 2.0, 2.0])))
+    dpos = np.array([1.0, 1.0, 0.5]) * (p['d'][0])
+    if b.has('R6'):
+        up = dpos[0] * z[0] + dpos[1] * z[1] + dpos[2] * z[2] + 0.75 * zu[0]
+    else:
+        up = dpos @ z + 0.75 * zu.sum()
+    b.collect([robust(b, b.leq(up + 0.5, x.sum()), zbset(b, z, zu, kind), fset)])
+    b.collect([b.leq(x[0] - x[1], 0.75)])
+    c = p['c']
+    if b.has('R6'):
+        obj = (c[0] - z[0]) * x[0] + (c[1] - z[1]) * x[1] + (c[2] - z[2]) * x[2] + 0.5 * zu[0]
+    else:
+        obj = (c - z) @ x + 0.5 * zu.sum()
+    if b.dro_fe:
+        b.finish(obj, fset)
+    else:
+        b.finish(obj, zs)
+
+
 def build_dro(b):
     p = b.p
     rso = b.rso
@@ -319,6 +368,8 @@ def build(base, act, pal):
         build_det(b, False)
     elif base == 'socp':
         build_det(b, True)
+    elif base in ('ro_zbox', 'ro_zmir'):
+        build_roz(b, base[3:])
     elif base.startswith('ro_'):
         build_ro(b, base[3:])
     elif base == 'dro':
